@@ -50,5 +50,5 @@ vars == <<defs, byNs, byNm, evals, res, fresh>>
 \* the actions and the invariants: WorkspaceCore, over this alphabet
 INSTANCE WorkspaceCore
 
-Spec == Init /\ [][Next]_vars
+Spec == Init /\ [][NextL]_vars
 =============================================================================
